@@ -13,6 +13,7 @@ RULE = ("Generated programs (one third written with generated whitespace / comme
         "every input the same group (value and type) or the same exception class as ExperimentEvaluator(text), with random "
         "seeded identically on both sides when the experiment has no splitter. Non-trivial = program with a conditional and "
         "a salt or splitters, both layouts executed; distinct by (text, layout).")
+RULE += (' Since rounds 6-7: unprintable / unhashable inputs (ints beyond the digit limit, lone surrogates), two faults at once, values whose every use raises a bare exception.')
 ASSUMPTIONS = [
     "the generated text may import from pyab_experiment (it does so by design); 'stand-alone' means exec in an empty namespace",
 ]
